@@ -1,3 +1,335 @@
-(* C08 — proofs (placeholder, filled in below) *)
+(* C08 — assembly of the property-level lemmas (see Basics, F12, Segs, F4 for the parts) *)
 From Coq Require Import ZArith List Bool Lia.
 From FV Require Import Lib.RustInt C08.Model.
+From FV Require Export C08.Basics C08.F12 C08.Segs C08.F4.
+Import ListNotations.
+Open Scope Z_scope.
+Ltac Zify.zify_post_hook ::= Z.div_mod_to_equations.
+
+(* the property's domain: chars U+0000..U+10FFFF, glyph ids non-zero and 16-bit *)
+Definition valid_input (input : list (Z * Z)) : Prop := Forall valid input.
+
+Lemma valid_canon input : valid_input input -> Forall valid (canon input).
+Proof.
+  unfold valid_input. rewrite !Forall_forall. intros H p Hp. apply H. apply canon_in. exact Hp.
+Qed.
+
+(* ---------- from_mappings: outcome analysis ---------- *)
+Lemma from_mappings_built input o4 o12 : from_mappings input = Built o4 o12 ->
+  find_conflict (canon input) = None /\ create_format_4 (canon input) = Some o4 /\
+  (o12 = None /\ existsb (fun p => 65535 <? fst p) (canon input) = false \/
+   exists gs, o12 = Some gs /\ existsb (fun p => 65535 <? fst p) (canon input) = true /\
+              create_format_12 (canon input) = Some gs).
+Proof.
+  unfold from_mappings. fold (canon input).
+  destruct (find_conflict (canon input)) as [[[ch g1] g2]|]; [discriminate|].
+  destruct (create_format_4 (canon input)) as [f4|]; [|discriminate].
+  destruct (existsb (fun p => 65535 <? fst p) (canon input)) eqn:Ex.
+  - destruct (create_format_12 (canon input)) as [gs|]; [|discriminate].
+    intros H. inversion H; subst. split; auto. split; auto. right. exists gs. auto.
+  - intros H. inversion H; subst. auto.
+Qed.
+
+Theorem conflict_reported input ch g1 g2 : from_mappings input = Conflict ch g1 g2 ->
+  g1 < g2 /\ In (ch, g1) input /\ In (ch, g2) input.
+Proof.
+  unfold from_mappings. fold (canon input).
+  destruct (find_conflict (canon input)) as [[[c a] b]|] eqn:E.
+  - intros H. inversion H; subst. apply find_conflict_some in E. destruct E as (H1 & H2 & H3).
+    split; auto. split; apply canon_in; auto.
+  - destruct (create_format_4 (canon input)); [|discriminate].
+    destruct (existsb _ _); [destruct (create_format_12 _)|]; discriminate.
+Qed.
+
+Theorem conflict_free_accepted input : conflict_free input -> forall ch g1 g2, from_mappings input <> Conflict ch g1 g2.
+Proof.
+  intros H ch g1 g2 E. apply conflict_reported in E. destruct E as (Hlt & H1 & H2).
+  specialize (H _ _ _ H1 H2). lia.
+Qed.
+
+(* ---------- format 12 ---------- *)
+Lemma valid_okp l : Forall valid l -> Forall okp l.
+Proof. apply Forall_impl. intros [c g] [H1 H2]. unfold okp, B32. cbn in *. lia. Qed.
+
+Lemma built_f12 input o4 gs : valid_input input -> from_mappings input = Built o4 (Some gs) ->
+  asc (canon input) /\ expand gs = canon input /\ gwf (-1) (-2) gs.
+Proof.
+  intros HV HB. apply from_mappings_built in HB. destruct HB as (Hc & _ & [[E _]|[gs' (E & Ex & E12)]]); [discriminate|].
+  inversion E; subst gs'; clear E. pose proof (canon_asc _ Hc) as Ha. split; auto.
+  apply create_format_12_spec; auto.
+  - intros En. rewrite En in Ex. discriminate.
+  - apply valid_okp, valid_canon; auto.
+Qed.
+
+Theorem cmap12_answers_lemma input o4 gs : valid_input input -> from_mappings input = Built o4 (Some gs) ->
+  forall c g, 0 <= c -> (cmap12_map gs c = Some g <-> In (c, g) input).
+Proof.
+  intros HV HB c g Hc. destruct (built_f12 _ _ _ HV HB) as (Ha & He & Hw).
+  rewrite (cmap12_map_spec gs _ He Hw Ha c g Hc). apply canon_in.
+Qed.
+
+(* exactly the input pairs, ascending; the groups are non-empty, ascending, disjoint and maximal *)
+Theorem cmap12_iter_exact_lemma input o4 gs : valid_input input -> from_mappings input = Built o4 (Some gs) ->
+  cmap12_iter None gs = canon input /\ asc (canon input) /\ (forall p, In p (canon input) <-> In p input) /\
+  (forall i a, nth_error gs i = Some a -> g_start a <= g_end a) /\
+  (forall i a b, nth_error gs i = Some a -> nth_error gs (S i) = Some b ->
+     g_end a < g_start b /\ ~ (g_start b = g_end a + 1 /\ g_gid b = g_gid a + (g_end a - g_start a) + 1)).
+Proof.
+  intros HV HB. destruct (built_f12 _ _ _ HV HB) as (Ha & He & Hw).
+  split; [rewrite cmap12_iter_exact_gs by auto; exact He|]. split; auto.
+  split; [intros; apply canon_in|]. split.
+  - intros i a Hi. destruct (gwf_nth _ _ _ Hw) as [Hn _]. apply (Hn i a Hi).
+  - intros i a b. apply (gwf_maximal _ _ _ Hw).
+Qed.
+
+(* ---------- format 4 ---------- *)
+Lemma f4_loop_length ms nseg segs : forall i n rows gids,
+  f4_loop ms nseg i n segs = Some (rows, gids) -> length rows = length segs.
+Proof.
+  induction segs as [|s tl IH]; intros i n rows gids E.
+  - cbn in E. inversion E. reflexivity.
+  - cbn [f4_loop] in E.
+    destruct (nth_error ms (start_ix s)); [|discriminate]. destruct (nth_error ms (end_ix s)); [|discriminate].
+    cbn [obind] in E. destruct (id_delta s).
+    + destruct (delta_i16 z); [|discriminate]. cbn [obind] in E.
+      destruct (f4_loop ms nseg (S i) n tl) as [[r g]|] eqn:Er; [|discriminate].
+      cbn [obind fst snd] in E. inversion E; subst. cbn [length]. f_equal. eapply IH; eauto.
+    + destruct (Nat.ltb nseg i); [discriminate|].
+      destruct (chk_u 16 _); [|discriminate]. cbn [obind] in E.
+      destruct (Nat.ltb _ _); [discriminate|]. destruct (Nat.leb _ _); [discriminate|].
+      destruct (negb _); [discriminate|].
+      match type of E with context [f4_loop ms nseg (S i) ?m tl] =>
+        destruct (f4_loop ms nseg (S i) m tl) as [[r g]|] eqn:Er; [|discriminate] end.
+      cbn [obind fst snd] in E. inversion E; subst. cbn [length]. f_equal. eapply IH; eauto.
+Qed.
+
+Definition sentinel : Row := (65535, 65535, 1, 0).
+
+(* everything the reader needs to know about a table create_format_4 has produced *)
+Lemma create_format_4_table ms t4 : asc ms -> Forall valid ms -> create_format_4 ms = Some (Some t4) ->
+  exists rows gids,
+    let allrows := rows ++ [sentinel] in
+    t4 = mkT4 (Z.of_nat (length allrows) * 2) (map row_end allrows) (map row_start allrows)
+              (map row_delta allrows) (map row_roff allrows) gids /\
+    rows_ok (length allrows) 0 0 rows gids (bmp_prefix ms) /\ rows <> [].
+Proof.
+  intros Ha HV E. unfold create_format_4 in E.
+  destruct (compute_segments_cover ms) as (segs & Es & Hcov & Hnil). rewrite Es in E. cbn [obind] in E.
+  destruct (negb (forallb (fun p => snd p <=? 65535) ms)); [discriminate|].
+  destruct segs as [|s0 segs']; [discriminate|]. set (segs := s0 :: segs') in *.
+  destruct (f4_loop ms (S (length segs)) 0 0 segs) as [[rows gids]|] eqn:Er; [|discriminate].
+  cbn [obind fst snd] in E. inversion E; subst t4; clear E.
+  pose proof (f4_loop_length _ _ _ _ _ _ _ Er) as Hlen.
+  destruct (bmp_prefix_split ms) as (post & Hsplit & Hle & _).
+  exists rows, gids. cbn zeta. rewrite app_length. cbn [length]. rewrite Hlen.
+  replace (length segs + 1)%nat with (S (length segs)) by lia.
+  split; [reflexivity|]. split.
+  - apply (f4_loop_rows ms _ segs O (bmp_prefix ms) Hcov post O O rows gids); [exact Hsplit | | lia | exact Er].
+    rewrite Forall_forall in *. intros p Hp. unfold cp16. split; [|apply Hle; auto].
+    assert (In p ms) by (rewrite Hsplit; apply in_or_app; auto). destruct (HV p H) as [[? ?] _]. lia.
+  - intros ->. cbn in Hlen. subst segs. discriminate.
+Qed.
+
+Lemma bmp_prefix_in ms c g : asc ms -> c <= 65535 -> (In (c, g) (bmp_prefix ms) <-> In (c, g) ms).
+Proof.
+  intros Ha Hc. destruct (bmp_prefix_split ms) as (post & Hsplit & Hle & Hgt). split.
+  - intros H. rewrite Hsplit. apply in_or_app. auto.
+  - intros H. rewrite Hsplit in H. apply in_app_or in H. destruct H as [H|H]; auto.
+    specialize (Hgt Ha _ H). cbn in Hgt. lia.
+Qed.
+
+Lemma cmap4_map_table ms t4 : asc ms -> Forall valid ms -> create_format_4 ms = Some (Some t4) ->
+  forall c g, 0 <= c <= 65535 -> c <> 65535 -> (cmap4_map t4 c = Some g <-> In (c, g) ms).
+Proof.
+  intros Ha HV E c g Hc Hns.
+  destruct (create_format_4_table _ _ Ha HV E) as (rows & gids & Ht & Hrows & Hne). cbn zeta in *.
+  set (allrows := rows ++ [sentinel]) in *.
+  set (l := bmp_prefix ms) in *.
+  assert (Hal : asc l).
+  { destruct (bmp_prefix_split ms) as (post & Hsplit & _). rewrite Hsplit in Ha. eapply adj_app_l; eauto. }
+  assert (HVl : Forall valid l).
+  { destruct (bmp_prefix_split ms) as (post & Hsplit & _). rewrite Hsplit in HV. apply Forall_app in HV. tauto. }
+  assert (Hl65 : forall p, In p l -> 0 <= fst p <= 65535).
+  { intros p Hp. destruct (bmp_prefix_split ms) as (post & Hsplit & Hle & _). split; [|apply Hle; auto].
+    rewrite Forall_forall in HVl. destruct (HVl p Hp) as [[? ?] _]. lia. }
+  (* lookup facts *)
+  destruct (rows_ok_lookup _ _ _ _ _ _ Hrows [] [sentinel] [] t4 eq_refl eq_refl
+              ltac:(subst t4; reflexivity) ltac:(subst t4; reflexivity) ltac:(subst t4; reflexivity)
+              eq_refl HVl) as [L1 L2].
+  (* monotone rows *)
+  destruct (rows_ok_mono _ _ _ _ _ _ Hrows Hal 0 ltac:(intros p Hp; apply Hl65; auto)) as [M1 M2].
+  assert (Mall : rmono 0 allrows).
+  { apply rmono_snoc; auto.
+    - intros r Hr. destruct (M2 _ Hr) as [p [Hp ->]]. change (row_start sentinel) with 65535. apply Hl65; auto.
+    - change (row_start sentinel) with 65535. lia.
+    - change (row_start sentinel) with 65535. change (row_end sentinel) with 65535. lia. }
+  destruct (rmono_nth _ _ Mall) as [N1 N2].
+  (* the search *)
+  unfold cmap4_map. destruct (Z.ltb_spec 65535 c) as [|_]; [lia|].
+  assert (Hhi : Z.to_nat (segx2 t4 / 2) = length allrows).
+  { subst t4. cbn [segx2]. rewrite Z.div_mul by lia. lia. }
+  rewrite Hhi.
+  pose proof (cmap4_search_spec t4 allrows c ltac:(subst t4; reflexivity) ltac:(subst t4; reflexivity)
+                (fun i a H => proj2 (N1 i a H)) N2 (S (length allrows)) 0 (length allrows)
+                (Nat.le_refl _) ltac:(lia) ltac:(intros; lia)
+                ltac:(intros j a Hj Ha'; apply nth_error_None in Hj; congruence)) as HS.
+  rewrite <- (bmp_prefix_in ms c g Ha) by lia. fold l.
+  destruct HS as [(i & a & Hi & Hr & Es)|[Es Hnone]].
+  - rewrite Es. assert (Hil : (i < length rows)%nat).
+    { destruct (Nat.lt_ge_cases i (length rows)) as [|Hge]; auto. exfalso.
+      unfold allrows in Hi. rewrite nth_error_app2 in Hi by lia.
+      destruct (i - length rows)%nat as [|[|k]]; cbn in Hi; try discriminate.
+      inversion Hi; subst a. unfold sentinel, row_start, row_end in Hr. cbn in Hr. lia. }
+    unfold allrows in Hi. rewrite nth_error_app1 in Hi by lia.
+    destruct (L1 _ _ Hi c Hr) as [g' [Hin Hl]]. cbn [Nat.add] in Hl. rewrite Hl. split.
+    + intros H. inversion H; subst; auto.
+    + intros H. f_equal. eapply asc_unique; eauto.
+  - rewrite Es. split; [discriminate|]. intros Hin. exfalso.
+    destruct (L2 _ Hin) as (j & r & Hj & Hr). cbn [fst] in Hr.
+    apply (Hnone j r); auto. unfold allrows. rewrite nth_error_app1; auto.
+    apply nth_error_Some. congruence.
+Qed.
+
+Theorem cmap4_answers_lemma input t4 o12 : valid_input input -> from_mappings input = Built (Some t4) o12 ->
+  forall c g, 0 <= c <= 65535 -> c <> 65535 -> (cmap4_map t4 c = Some g <-> In (c, g) input).
+Proof.
+  intros HV HB c g Hc Hns. apply from_mappings_built in HB. destruct HB as (Hcf & E4 & _).
+  rewrite (cmap4_map_table _ _ (canon_asc _ Hcf) (valid_canon _ HV) E4 c g Hc Hns). apply canon_in.
+Qed.
+
+Lemma option_iff_eq (a b : option Z) : (forall g, a = Some g <-> b = Some g) -> a = b.
+Proof.
+  intros H. destruct a as [x|], b as [y|]; auto.
+  - apply H. reflexivity.
+  - discriminate (proj1 (H x) eq_refl).
+  - discriminate (proj2 (H y) eq_refl).
+Qed.
+
+(* the same, in the "answers with assoc" form of the property text *)
+Theorem cmap4_answers_assoc_lemma input t4 o12 : valid_input input -> from_mappings input = Built (Some t4) o12 ->
+  forall c, 0 <= c <= 65535 -> c <> 65535 -> cmap4_map t4 c = assoc c (canon input).
+Proof.
+  intros HV HB c Hc Hns. apply option_iff_eq. intros g.
+  rewrite (cmap4_answers_lemma _ _ _ HV HB c g Hc Hns).
+  apply from_mappings_built in HB. destruct HB as (Hcf & _).
+  rewrite (asc_assoc _ (canon_asc _ Hcf)). symmetry. apply canon_in.
+Qed.
+
+Lemma cmap4_map_above t c : 65535 < c -> cmap4_map t c = None.
+Proof. intros. unfold cmap4_map. destruct (Z.ltb_spec 65535 c); [reflexivity | lia]. Qed.
+
+(* ---------- segments ---------- *)
+Theorem segments_partition_lemma sorted :
+  exists segs, compute_segments sorted = Some segs /\ segs_cover segs 0 (bmp_prefix sorted).
+Proof. destruct (compute_segments_cover sorted) as (segs & H1 & H2 & _). eauto. Qed.
+
+Theorem delta_mod_65536_lemma d d16 : delta_i16 d = Some d16 ->
+  -32768 <= d16 < 32768 /\ (d16 - d) mod 65536 = 0.
+Proof. apply delta_i16_spec. Qed.
+
+(* the conversion panics exactly on [32768, 65535] (for gid - cp of 16-bit operands) *)
+Theorem delta_panics_iff_lemma d : -65536 < d < 65536 -> (delta_i16 d = None <-> 32768 <= d <= 65535).
+Proof.
+  intros Hd. unfold delta_i16, chk_s, in_s. change (- 2 ^ (16 - 1)) with (-32768). change (2 ^ (16 - 1)) with 32768.
+  destruct (Z_lt_le_dec d (-32768)) as [HA|HA]; [|destruct (Z_lt_le_dec d 32768) as [HB|HB]].
+  - assert (E1 : (-32768 <=? d) = false) by (apply Z.leb_gt; lia). rewrite E1. cbn [andb].
+    assert (Em : d mod 65536 = d + 65536) by (symmetry; apply Z.mod_unique with (q := -1); lia). rewrite Em.
+    assert (E2 : (-32768 <=? d + 65536) = true) by (apply Z.leb_le; lia).
+    assert (E3 : (d + 65536 <? 32768) = true) by (apply Z.ltb_lt; lia). rewrite E2, E3. cbn [andb].
+    split; [discriminate | lia].
+  - assert (E1 : (-32768 <=? d) = true) by (apply Z.leb_le; lia).
+    assert (E2 : (d <? 32768) = true) by (apply Z.ltb_lt; lia). rewrite E1, E2. cbn [andb].
+    split; [discriminate | lia].
+  - assert (E1 : (d <? 32768) = false) by (apply Z.ltb_ge; lia). rewrite E1, andb_false_r.
+    assert (Em : d mod 65536 = d) by (apply Z.mod_small; lia). rewrite Em. rewrite E1, andb_false_r.
+    split; [lia | reflexivity].
+Qed.
+
+(* ---------- which subtables are emitted ---------- *)
+Theorem subtable_choice_lemma input o4 o12 : valid_input input -> from_mappings input = Built o4 o12 ->
+  (o12 <> None <-> exists p, In p input /\ 65535 < fst p) /\
+  (o4 <> None <-> exists p, In p input /\ fst p <= 65535).
+Proof.
+  intros HV HB. apply from_mappings_built in HB. destruct HB as (Hcf & E4 & H12). split.
+  - destruct H12 as [[-> Ex]|[gs (-> & Ex & _)]].
+    + split; [congruence|]. intros [p [Hp Hlt]]. exfalso.
+      assert (existsb (fun p => 65535 <? fst p) (canon input) = true).
+      { apply existsb_exists. exists p. split; [apply canon_in; auto | lia]. }
+      congruence.
+    + split; [|discriminate]. intros _. apply existsb_exists in Ex. destruct Ex as [p [Hp Hlt]].
+      exists p. split; [apply canon_in; auto | lia].
+  - pose proof (canon_asc _ Hcf) as Ha.
+    unfold create_format_4 in E4.
+    destruct (compute_segments_cover (canon input)) as (segs & Es & Hcov & Hnil). rewrite Es in E4. cbn [obind] in E4.
+    destruct (negb (forallb (fun p => snd p <=? 65535) (canon input))); [discriminate|].
+    destruct (bmp_prefix_split (canon input)) as (post & Hsplit & Hle & Hgt).
+    destruct segs as [|s0 segs'].
+    + inversion E4; subst o4. split; [congruence|]. intros [p [Hp Hlt]]. exfalso.
+      assert (Hb : bmp_prefix (canon input) = []) by (apply Hnil; reflexivity).
+      apply canon_in in Hp. rewrite Hsplit, Hb in Hp. cbn [app] in Hp. specialize (Hgt Ha _ Hp). lia.
+    + destruct (f4_loop _ _ _ _ _); [|discriminate]. cbn [obind] in E4. inversion E4; subst o4.
+      split; [|discriminate]. intros _.
+      destruct (bmp_prefix (canon input)) as [|p0 l0] eqn:Eb.
+      * exfalso. assert (s0 :: segs' = []) by (apply Hnil; reflexivity). discriminate.
+      * exists p0. split; [apply canon_in; rewrite Hsplit; left; reflexivity | apply Hle; left; reflexivity].
+Qed.
+
+(* ---------- Cmap::map_codepoint over the emitted records ---------- *)
+Definition sub_ans (st : Subtable) (c : Z) : option Z :=
+  match st with F4 t => cmap4_map t c | F12 g => cmap12_map g c | _ => None end.
+
+Lemma cmap_map_first records c a :
+  (forall p e st, In (p, e, st) records -> sub_ans st c = a \/ sub_ans st c = None) ->
+  (a <> None -> exists p e st, In (p, e, st) records /\ sub_ans st c = a) ->
+  cmap_map records c = a.
+Proof.
+  induction records as [|[[p e] st] tl IH]; intros H1 H2.
+  - cbn. destruct a as [v|]; [|reflexivity]. destruct (H2 ltac:(discriminate)) as (? & ? & ? & [] & _).
+  - cbn [cmap_map]. fold (sub_ans st c). destruct (sub_ans st c) as [v|] eqn:E.
+    + destruct (H1 p e st (or_introl eq_refl)) as [Ha|Ha]; congruence.
+    + apply IH.
+      * intros p' e' st' Hin. apply (H1 p' e' st'). right. exact Hin.
+      * intros Hne. destruct (H2 Hne) as (p' & e' & st' & [Hin|Hin] & Hans).
+        -- inversion Hin; subst. congruence.
+        -- eauto.
+Qed.
+
+Lemma cmap12_answers_assoc input o4 gs : valid_input input -> from_mappings input = Built o4 (Some gs) ->
+  forall c, 0 <= c -> cmap12_map gs c = assoc c (canon input).
+Proof.
+  intros HV HB c Hc. apply option_iff_eq. intros g.
+  rewrite (cmap12_answers_lemma _ _ _ HV HB c g Hc).
+  apply from_mappings_built in HB. destruct HB as (Hcf & _).
+  rewrite (asc_assoc _ (canon_asc _ Hcf)). symmetry. apply canon_in.
+Qed.
+
+Theorem cmap_answers_assoc_lemma input o4 o12 : valid_input input -> from_mappings input = Built o4 o12 ->
+  forall c, 0 <= c -> c <> 65535 -> cmap_map (records_of o4 o12) c = assoc c (canon input).
+Proof.
+  intros HV HB c Hc Hns.
+  pose proof (from_mappings_built _ _ _ HB) as (Hcf & _).
+  pose proof (canon_asc _ Hcf) as Ha.
+  apply cmap_map_first.
+  - intros p e st Hin. unfold records_of in Hin.
+    assert (Hst : (exists t, o4 = Some t /\ st = F4 t) \/ (exists gs, o12 = Some gs /\ st = F12 gs)).
+    { destruct o4 as [t|], o12 as [gs|]; cbn in Hin;
+        repeat (destruct Hin as [Hin|Hin]; [inversion Hin; subst; eauto|]); destruct Hin. }
+    destruct Hst as [(t & -> & ->)|(gs & -> & ->)]; cbn [sub_ans].
+    + destruct (Z.le_gt_cases c 65535).
+      * left. eapply cmap4_answers_assoc_lemma; eauto. lia.
+      * right. apply cmap4_map_above. auto.
+    + left. eapply cmap12_answers_assoc; eauto.
+  - intros Hne. destruct (assoc c (canon input)) as [g|] eqn:Eg; [|congruence].
+    apply assoc_in in Eg. apply canon_in in Eg.
+    destruct (subtable_choice_lemma _ _ _ HV HB) as [S12 S4].
+    destruct (Z.le_gt_cases c 65535).
+    + destruct o4 as [t|]; [|exfalso; apply (proj2 S4); [exists (c, g); auto | reflexivity]].
+      exists 0, 3, (F4 t). split; [unfold records_of; left; reflexivity|]. cbn [sub_ans].
+      rewrite (cmap4_answers_assoc_lemma _ _ _ HV HB c) by lia.
+      apply (asc_assoc _ Ha). apply canon_in. auto.
+    + destruct o12 as [gs|]; [|exfalso; apply (proj2 S12); [exists (c, g); auto | reflexivity]].
+      exists 0, 4, (F12 gs). split.
+      * unfold records_of. destruct o4; cbn; auto.
+      * cbn [sub_ans]. rewrite (cmap12_answers_assoc _ _ _ HV HB c Hc).
+        apply (asc_assoc _ Ha). apply canon_in. auto.
+Qed.
